@@ -21,7 +21,7 @@ RULE = ('per stage (blocked, discard, downsample, decimate, rms, derivative, iir
         '1-D and 2-channel, plain ndarray and PipelineData; annotated streams start at 0, at positive and at NEGATIVE s0 (pre-stimulus), half of them chosen so that a counter of the stage (output-sample counter, s0 of the held block, discard/block counter) is exactly 0, +-1 or its initial value at a chunk boundary of the chunking, plus dedicated chunkings cut exactly at / next to that point; fs in {1000, 44100, 195312.5}; '
         'event_rate: all compositions of spans of 9 (thorough 11) samples and random spans up to 300 with random events, window 1..40, step 1..40. '
         'Variant cases (per stage ~90 quick / 1500 thorough; event_rate 120 / 2000): float64/float32/int64/int32/int16 data, read-only chunks, '
-        'ZERO-LENGTH chunks (all stages but iirfilter/decimate, see assumptions), 1/2/3 channels, string / falsy / mixed-type / tuple / default labels, '
+        'ZERO-LENGTH chunks (every stage; in front, in the middle, in a row, at the end), 1/2/3 channels, string / falsy / mixed-type / tuple / default labels, '
         'scalar labels on 1-D, {} / nested / falsy-valued metadata, int / NumPy scalars for q, block size, discard count, fs, s0, off-grid seconds '
         'arguments incl. exact .5 ties (rms duration, auto_th baseline), derivative initial state int / float / non-integer / NumPy, every iirfilter '
         'btype x ftype, every auto_th keyword (n float, fs auto/None/number, mode, auto_th_cb None/callable/positional, current_th_cb), transform with '
@@ -33,7 +33,7 @@ RULE = ('per stage (blocked, discard, downsample, decimate, rms, derivative, iir
 TRUSTED = ['harness/C12.py (stream/chunking generator; recipe evaluation: one one-shot call of lfilter / np.diff / np.mean / std / matmul '
            'on the whole signal and bit-exact lookup of every emitted value in it; canonicalisation of .s0/.fs/.channel/.metadata to integers)',
            'NumPy basic slicing as modelled in coq/Common/PySlice.v; generators resuming where they yielded']
-ASSUMPTIONS = ['theorems: chunks have >= 1 sample (the correspondence also sends zero-length chunks to every stage except iirfilter / decimate, where scipy.signal.lfilter on an empty array returns a garbage final state: finding key filters:zero-length-chunk-corrupts-filter-state, cases enabled by C12_EMPTY_FILTER_CHUNKS=1 or by a known: line); all chunks of a stream carry the same fs, channel labels and metadata and are contiguous in s0',
+ASSUMPTIONS = ['zero-length chunks are sent to every stage; the C12_*_values / _contiguous theorems assume chunks of >= 1 sample, the widened C12_iirfilter_*_any / C12_decimate_*_any cover chunkings with zero-length chunks; all chunks of a stream carry the same fs, channel labels and metadata and are contiguous in s0',
                'the caller does not overwrite a chunk after sending it (blocked, downsample, rms, auto_th keep references / views of their input until enough samples arrived; not demanded by the property text); the target MAY overwrite what it receives',
                'event_rate s0_mode is accepted but ignored by the code (always centre): only contiguity and rate are judged for left / right',
                'parameters: q >= 1, block size >= 1, discard count >= 0, rms block >= 1 and dividing the s0 of the first chunk '
@@ -81,7 +81,15 @@ KNOWN_WITNESSES = {
 
 
 def corpus():
-    return [dict(c) for k, c in KNOWN_WITNESSES.items() if k != EMPTY_FILTER_KEY or _empty_filter_chunks_enabled()]
+    return [dict(c) for c in KNOWN_WITNESSES.values()] + [
+        # zero-length chunks inside a filtered stream (scipy's lfilter returns an undefined state for empty input;
+        # repaired: iirfilter / decimate skip them, iirfilter waits for the first non-empty chunk)
+        {'stage': 'iirfilter', 'p': {'order': 2}, 'two': False, 'ann': False, 's0': 0, 'fs': 1000.0,
+         'sizes': [5, 0, 7], 'seed': 1},
+        {'stage': 'iirfilter', 'p': {'order': 1}, 'two': True, 'ann': True, 's0': -3, 'fs': 1000.0,
+         'sizes': [0, 0, 5, 7], 'seed': 1},
+        {'stage': 'decimate', 'p': {'q': 3}, 'two': False, 'ann': True, 's0': -36, 'fs': 44100.0,
+         'sizes': [0, 0, 0, 1, 1, 1, 0], 'seed': 961268}]
 
 
 # ------------------------------------------------------------------ data
@@ -652,13 +660,13 @@ def term(case, res):
         elif st == 'downsample':
             t = f'check_downsample {rep} {zlit(p["q"])} {h} {s0} {sizes} {got}'
         elif st == 'decimate':
-            t = f'check_decimate {rep} {zlit(p["q"])} {h} {s0} {sizes} {got}'
+            t = f'check_decimate_e {rep} {zlit(p["q"])} {h} {s0} {sizes} {got}'
         elif st == 'rms':
             t = f'check_rms {rep} {zlit(_rms_n(case))} {h} {s0} {sizes} {got}'
         elif st == 'derivative':
             t = f'check_derivative {h} {s0} {sizes} {got}'
         elif st == 'iirfilter':
-            t = f'check_iir {rep} {h} {s0} {sizes} {got}'
+            t = f'check_iir_e {rep} {h} {s0} {sizes} {got}'
         elif st in ('transform', 'mc_reference'):
             t = f'check_map {h} {s0} {sizes} {got}'
         elif st == 'auto_th':
@@ -816,8 +824,6 @@ def nontrivial(case, res):
 
 def key(case, res):
     st = case['stage']
-    if st in ('iirfilter', 'decimate') and 0 in case['sizes']:
-        return EMPTY_FILTER_KEY
     if st == 'downsample' and case.get('ann'):
         return KNOWN_KEYS[st]
     if st == 'decimate' and len(case['sizes']) > 1:
@@ -959,27 +965,9 @@ def _er_case(rng, sizes, bsz, stp, lo=None):
             'sizes': list(sizes), 'events': events}
 
 
-KNOWN_WITNESSES['filters:zero-length-chunk-corrupts-filter-state'] = {
-    'stage': 'iirfilter', 'p': {'order': 2}, 'two': False, 'ann': False, 's0': 0, 'fs': 1000.0, 'sizes': [5, 0, 7], 'seed': 1}
 _MATRICES = {1: [[[2]], [[-1]]],
              2: [[[1, -1], [0, 1]], [[2, 1], [1, 1]], [[0, 1], [1, 0]], [[1, 0], [0, 1]]],
              3: [[[1, -1, 0], [0, 1, -1], [0, 0, 1]], [[2, -1, -1], [-1, 2, -1], [1, 1, 1]]]}
-EMPTY_FILTER_KEY = 'filters:zero-length-chunk-corrupts-filter-state'
-
-
-def _empty_filter_chunks_enabled():
-    """iirfilter / decimate hand a zero-length chunk to scipy.signal.lfilter, whose returned final state is then
-    garbage (finding reported to the coordinator).  Those cases are generated when the finding is listed in
-    known_findings.txt (then reported as KNOWN-FINDING on every run) or when C12_EMPTY_FILTER_CHUNKS=1."""
-    if os.environ.get('C12_EMPTY_FILTER_CHUNKS'):
-        return True
-    try:
-        import vlib
-        return any(k['property'] == PROP and k['key'] == EMPTY_FILTER_KEY for k in vlib.load_known()[0])
-    except Exception:
-        return False
-
-
 def _with_zeros(rng, sizes):
     """insert zero-length chunks: in front, in the middle (also two in a row), at the end"""
     out = list(sizes)
@@ -998,7 +986,6 @@ def _variant_cases(stage, rng, reps):
     chunks, 1 / 2 / 3 channels, falsy / mixed-type / tuple labels, empty / nested / falsy metadata, every keyword of
     auto_th / iirfilter, callable kinds of transform, matrix kinds of mc_reference, a target that overwrites what it
     received, the Ellipsis reset message of blocked / discard"""
-    empties_ok = stage not in ('iirfilter', 'decimate') or _empty_filter_chunks_enabled()
     for _ in range(reps):
         N = rng.choice([rng.randint(1, 12), rng.randint(1, 40), rng.randint(1, 150)])
         p = _params(stage, rng, N, False)
@@ -1010,7 +997,7 @@ def _variant_cases(stage, rng, reps):
              's0k': rng.choice(['int', 'np']), 'ro': rng.random() < 0.4, 'clobber': rng.random() < 0.4,
              'lab': rng.randint(0, 3), 'md': rng.randint(0, 3), 'nch': rng.choice([1, 2, 3])}
         sizes = _rand_sizes(rng, N, 6)
-        if empties_ok and rng.random() < 0.4:
+        if rng.random() < 0.4:
             sizes = _with_zeros(rng, sizes)
         if stage == 'rms':
             p['off'] = rng.choice([0, 0.3, -0.4, 0.5, -0.5, 0.49])
